@@ -11,14 +11,14 @@ def Quiet (s : HState) : Prop := s.lockHeld = false ∧ s.marker = false
 
 /-- what a nested call made from inside the sink must satisfy: on a state whose marker is set it
     changes nothing and does not block -/
-def InnerOk (inner : Nat → Step) : Prop :=
+def InnerOk (inner : InnerAct → Step) : Prop :=
   ∀ j s, s.marker = true → (inner j s).st = s ∧ (inner j s).res ≠ .blocked
 
 theorem protectedLock_marker (body : Step) (s : HState) (h : s.marker = true) :
     protectedLock body s = ⟨s, [], .raised .runtimeError⟩ := by
   simp [protectedLock, h, Gen.markerCheckedBeforeSet]
 
-theorem emitTry_marker (env : Env) (c : Cfg) (i : Nat) (inner : Nat → Step) (s : HState)
+theorem emitTry_marker (env : Env) (c : Cfg) (i : Nat) (inner : InnerAct → Step) (s : HState)
     (h : s.marker = true) :
     (emitTry env c i inner s).st = s ∧ (emitTry env c i inner s).res ≠ .blocked ∧
     (emitTry env c i inner s).ev = [] := by
@@ -27,7 +27,7 @@ theorem emitTry_marker (env : Env) (c : Cfg) (i : Nat) (inner : Nat → Step) (s
   · simp
   · split <;> simp [protectedLock_marker _ _ h]
 
-theorem emitWith_marker (env : Env) (c : Cfg) (i : Nat) (inner : Nat → Step) (s : HState)
+theorem emitWith_marker (env : Env) (c : Cfg) (i : Nat) (inner : InnerAct → Step) (s : HState)
     (h : s.marker = true) :
     (emitWith env c i inner s).st = s ∧ (emitWith env c i inner s).res ≠ .blocked := by
   have ht := emitTry_marker env c i inner s h
@@ -47,8 +47,31 @@ theorem emitD_marker (env : Env) (c : Cfg) (n i : Nat) (s : HState) (h : s.marke
   | zero => exact emitWith_marker env c i _ s h
   | succ n => exact emitWith_marker env c i _ s h
 
-theorem emitD_innerOk (env : Env) (c : Cfg) (n : Nat) : InnerOk (emitD env c n) :=
-  fun j s h => emitD_marker env c n j s h
+/-- what `emitD env c (n+1)` hands to `emitWith`: the three ways a sink's use of the logger reaches its own
+    handler -/
+def innerD (env : Env) (c : Cfg) (n : Nat) : InnerAct → Step := fun a =>
+  match a with
+  | .log j => emitD env c n j
+  | .removeSelf k => stopH env c k
+  | .completeSelf => tasksLocked
+
+theorem emitD_succ (env : Env) (c : Cfg) (n i : Nat) :
+    emitD env c (n + 1) i = emitWith env c i (innerD env c n) := rfl
+
+theorem stopH_marker (env : Env) (c : Cfg) (k : Nat) (s : HState) (h : s.marker = true) :
+    stopH env c k s = ⟨s, [], .raised .runtimeError⟩ := by
+  simp [stopH, stopLock, Gen.stopUsesProtectedLock, protectedLock_marker _ s h]
+
+theorem tasksLocked_marker (s : HState) (h : s.marker = true) :
+    tasksLocked s = ⟨s, [], .raised .runtimeError⟩ := by
+  simp [tasksLocked, Gen.tasksUseProtectedLock, protectedLock_marker _ s h]
+
+theorem emitD_innerOk (env : Env) (c : Cfg) (n : Nat) : InnerOk (innerD env c n) := by
+  intro a s h
+  cases a with
+  | log j => exact emitD_marker env c n j s h
+  | removeSelf k => simp [innerD, stopH_marker env c k s h]
+  | completeSelf => simp [innerD, tasksLocked_marker s h]
 
 theorem innerOk_trivial : InnerOk (fun _ s => ⟨s, [], .ok⟩) := by
   intro j s _; simp
@@ -81,7 +104,7 @@ theorem rawWrite_ctl (env : Env) (c : Cfg) (i : Nat) (s : HState) :
       split <;> simp
     · simp
 
-theorem runInner_ctl (inner : Nat → Step) (hin : InnerOk inner) (js : List Nat) (s : HState)
+theorem runInner_ctl (inner : InnerAct → Step) (hin : InnerOk inner) (js : List InnerAct) (s : HState)
     (hm : s.marker = true) :
     (runInner inner js s).st = s ∧ (runInner inner js s).res ≠ .blocked := by
   induction js with
@@ -97,7 +120,7 @@ theorem runInner_ctl (inner : Nat → Step) (hin : InnerOk inner) (js : List Nat
     | raised e => simp only [hres]; exact ⟨hi.1, by simp⟩
     | blocked => exact absurd hres hi.2
 
-theorem sinkWrite_ctl (env : Env) (c : Cfg) (i : Nat) (inner : Nat → Step) (hin : InnerOk inner)
+theorem sinkWrite_ctl (env : Env) (c : Cfg) (i : Nat) (inner : InnerAct → Step) (hin : InnerOk inner)
     (s : HState) (hm : s.marker = true) :
     SameCtl s (sinkWrite env c i inner s).st ∧ (sinkWrite env c i inner s).res ≠ .blocked ∧
     (sinkWrite env c i inner s).st.queue = s.queue := by
@@ -120,7 +143,7 @@ theorem queuePut_ctl (env : Env) (c : Cfg) (i : Nat) (s : HState) :
   unfold queuePut SameCtl
   split <;> simp
 
-theorem lockedBody_ctl (env : Env) (c : Cfg) (i : Nat) (inner : Nat → Step) (hin : InnerOk inner)
+theorem lockedBody_ctl (env : Env) (c : Cfg) (i : Nat) (inner : InnerAct → Step) (hin : InnerOk inner)
     (s : HState) (hm : s.marker = true) :
     SameCtl s (lockedBody env c i inner s).st ∧ (lockedBody env c i inner s).res ≠ .blocked := by
   unfold lockedBody
@@ -174,7 +197,7 @@ def lockedExpected (env : Env) (c : Cfg) (i : Nat) (s : HState) : Ret :=
     | .dropped => ⟨s, [], .ok⟩
     | .skipped => ⟨s, [], .ok⟩
 
-theorem locked_eq (env : Env) (c : Cfg) (i : Nat) (inner : Nat → Step) (s : HState)
+theorem locked_eq (env : Env) (c : Cfg) (i : Nat) (inner : InnerAct → Step) (s : HState)
     (hq : Quiet s) (hre : env.reenter i c.id = []) :
     protectedLock (lockedBody env c i inner) s = lockedExpected env c i s := by
   obtain ⟨hl, hm⟩ := hq
@@ -203,7 +226,7 @@ theorem handled_eq (env : Env) (c : Cfg) (i : Nat) (s : HState) (ev : List Event
   unfold handle
   cases c.catch_ <;> simp [Gen.emitCaught]
 
-theorem emitWith_characterised (env : Env) (c : Cfg) (i : Nat) (inner : Nat → Step) (s : HState)
+theorem emitWith_characterised (env : Env) (c : Cfg) (i : Nat) (inner : InnerAct → Step) (s : HState)
     (hq : Quiet s) (hre : env.reenter i c.id = []) :
     emitWith env c i inner s = expected env c i s := by
   unfold emitWith emitTry expected outcome
@@ -233,7 +256,7 @@ theorem emitWith_characterised (env : Env) (c : Cfg) (i : Nat) (inner : Nat → 
             | delivered => rfl
             | failed e => exact handled_eq env c i s [] e rfl
             | deliveredThenFailed e => exact handled_eq env c i _ [] e rfl
-theorem emitTry_quiet (env : Env) (c : Cfg) (i : Nat) (inner : Nat → Step) (hin : InnerOk inner)
+theorem emitTry_quiet (env : Env) (c : Cfg) (i : Nat) (inner : InnerAct → Step) (hin : InnerOk inner)
     (s : HState) (hq : Quiet s) :
     Quiet (emitTry env c i inner s).st ∧ (emitTry env c i inner s).res ≠ .blocked ∧
     SameCtl s (emitTry env c i inner s).st := by
@@ -251,7 +274,7 @@ theorem emitTry_quiet (env : Env) (c : Cfg) (i : Nat) (inner : Nat → Step) (hi
       obtain ⟨_, _, a3, a4, a5⟩ := h2
       exact ⟨q1.trans hq.1.symm, q2.trans hq.2.symm, h.2.2.1.trans a3, h.2.2.2.1.trans a4, h.2.2.2.2.trans a5⟩
 
-theorem emitWith_st (env : Env) (c : Cfg) (i : Nat) (inner : Nat → Step) (s : HState) :
+theorem emitWith_st (env : Env) (c : Cfg) (i : Nat) (inner : InnerAct → Step) (s : HState) :
     (emitWith env c i inner s).st = (emitTry env c i inner s).st := by
   unfold emitWith
   simp only []
@@ -259,7 +282,7 @@ theorem emitWith_st (env : Env) (c : Cfg) (i : Nat) (inner : Nat → Step) (s : 
   · split <;> rfl
   · rfl
 
-theorem emitWith_blocked (env : Env) (c : Cfg) (i : Nat) (inner : Nat → Step) (s : HState) :
+theorem emitWith_blocked (env : Env) (c : Cfg) (i : Nat) (inner : InnerAct → Step) (s : HState) :
     (emitWith env c i inner s).res = .blocked ↔ (emitTry env c i inner s).res = .blocked := by
   unfold emitWith
   simp only []
@@ -270,7 +293,7 @@ theorem emitWith_blocked (env : Env) (c : Cfg) (i : Nat) (inner : Nat → Step) 
     · rfl
   · rfl
 
-theorem emitWith_quiet (env : Env) (c : Cfg) (i : Nat) (inner : Nat → Step) (hin : InnerOk inner)
+theorem emitWith_quiet (env : Env) (c : Cfg) (i : Nat) (inner : InnerAct → Step) (hin : InnerOk inner)
     (s : HState) (hq : Quiet s) :
     Quiet (emitWith env c i inner s).st ∧ (emitWith env c i inner s).res ≠ .blocked ∧
     SameCtl s (emitWith env c i inner s).st := by
@@ -303,7 +326,7 @@ theorem print_tame (env : Env) (ht : StderrTame env) (i h : Nat) (m : Option Nat
     simp [Gen.printSwallows]
   · simp [Gen.printGuardsRecordStr]
 
-theorem emitWith_catch_ok (env : Env) (c : Cfg) (i : Nat) (inner : Nat → Step) (s : HState)
+theorem emitWith_catch_ok (env : Env) (c : Cfg) (i : Nat) (inner : InnerAct → Step) (s : HState)
     (hc : c.catch_ = true) (ht : StderrTame env) (hb : (emitTry env c i inner s).res ≠ .blocked) :
     (emitWith env c i inner s).res = .ok := by
   unfold emitWith
@@ -525,9 +548,13 @@ theorem protectedLock_quiet2 (body : Step) (s : HState) (hq : Quiet s)
   | raised e => simp [Quiet, Gen.markerResetInFinally]
   | blocked => exact absurd hres hb
 
+theorem stopLock_eq (body : Step) : stopLock body = protectedLock body := by
+  simp [stopLock, Gen.stopUsesProtectedLock]
+
 theorem stopH_quiet (env : Env) (c : Cfg) (k : Nat) (s : HState) (hq : Quiet s) :
     Quiet (stopH env c k s).st ∧ (stopH env c k s).res ≠ .blocked := by
   unfold stopH
+  rw [stopLock_eq]
   apply protectedLock_quiet2 _ s hq
   simp only []
   split <;> simp
@@ -543,7 +570,7 @@ def AllGood (reg : Reg) : Prop := ∀ p ∈ reg, Good p
 theorem queuedItem_ne_sentinel (env : Env) (c : Cfg) (i : Nat) : queuedItem env c i ≠ .sentinel := by
   unfold queuedItem; split <;> simp
 
-theorem lockedBody_queue (env : Env) (c : Cfg) (i : Nat) (inner : Nat → Step) (hin : InnerOk inner)
+theorem lockedBody_queue (env : Env) (c : Cfg) (i : Nat) (inner : InnerAct → Step) (hin : InnerOk inner)
     (s : HState) (hm : s.marker = true) (hs : QItem.sentinel ∉ s.queue) :
     QItem.sentinel ∉ (lockedBody env c i inner s).st.queue := by
   unfold lockedBody
@@ -557,7 +584,7 @@ theorem lockedBody_queue (env : Env) (c : Cfg) (i : Nat) (inner : Nat → Step) 
         exact ⟨hs, fun h => queuedItem_ne_sentinel env c i h.symm⟩
     · rw [(sinkWrite_ctl env c i inner hin s hm).2.2]; exact hs
 
-theorem emitWith_queue (env : Env) (c : Cfg) (i : Nat) (inner : Nat → Step) (hin : InnerOk inner)
+theorem emitWith_queue (env : Env) (c : Cfg) (i : Nat) (inner : InnerAct → Step) (hin : InnerOk inner)
     (s : HState) (hq : Quiet s) (hs : QItem.sentinel ∉ s.queue) :
     QItem.sentinel ∉ (emitWith env c i inner s).st.queue := by
   rw [emitWith_st]
